@@ -84,6 +84,8 @@ var c17Faults = []c17Fault{
 	{"undefined-function", []string{"(", "undefined-fn-xyz", "1", "2", ")"}, 1}, // the faulty expression is the symbol
 	{"throw-string", []string{"(", "throw", `"planted"`, ")"}, 0},
 	{"throw-map", []string{"(", "throw", "{", ":a", "1", "}", ")"}, 0},
+	{"throw-computed-list", []string{"(", "throw", "(", "list", "1", "(", "+", "1", "2", ")", ")", ")"}, 0},
+	{"throw-computed-call", []string{"(", "throw", "(", "str", "\"a\"", "\"b\"", ")", ")"}, 0},
 	{"div-by-zero", []string{"(", "/", "1", "0", ")"}, 0},
 	{"nth-out-of-range", []string{"(", "nth", "[", "]", "3", ")"}, 0},
 	{"type-error", []string{"(", "+", "1", `"s"`, ")"}, 0},
